@@ -55,6 +55,9 @@ func TestC20OTel(t *testing.T) {
 		if msg, sg := checkOTel(eng, kit, run); msg != "" {
 			run.Violation("otel:"+sg, msg, map[string]any{"program": eng.P})
 		}
+		if msg := eng.ExtraObsProblem(); msg != "" {
+			run.Violation("otel:earlier-observer-unbalanced", msg, map[string]any{"program": eng.P})
+		}
 	}
 	if p := prog.ReplayProgram(); p != nil {
 		h.Exec(0, p, factory, after)
